@@ -197,7 +197,8 @@ class Judge:
                 sig += "|off=" + ("-" if mask == ref.ALL else (label(sig) if label else _off(mask)))
             res.violate(sig, msg + " :: " + self.where(q, pre, mask), self.rp(q, mask, **(rp_extra or {})))
 
-        if sid in ref.SUBFUNC and len(q) < 2 and not mask & ref.MSF and mask & ref.SFNS and h is not None:
+        # (with the format rule off as well, the RoutineControl / ReadDTCInformation handlers may say 0x12 themselves)
+        if sid in ref.SUBFUNC and len(q) < 2 and not mask & ref.MSF and mask & ref.SFNS and h is not None and (mask & ref.IFMT or sid not in (ref.RC, ref.RDTC)):
             if h[0] == 0x7F and len(h) == 3 and h[2] in (ref.NRC_SFNS, ref.NRC_SFNSIAS) and (not mask & ref.SNS or sid in m.services.get(pre[0], {})):
                 # rule 3 fired on a request that has no sub-function byte (rule 2 being disabled)
                 bad(
@@ -427,6 +428,7 @@ class Explorer:
             if mk == mask:
                 return True
             tmp = Result()
+            self.ecu.restore(self.snap)  # the outer run has already moved the state
             self.apply(q, mk, gap, entropy, pre, res=tmp, explain=False)
             return any(sg.startswith(base + "|off=") for sg in tmp.notes.get("sig_counts", {}))
 
